@@ -14,7 +14,7 @@ from checks import c01
 
 DIMS = dict(rwsets='{{}, {"r1"}, {"r1", "r2"}}', utf8set="{TRUE, FALSE}",
             stages='{"ok", "start", "rcpt", "body", "commit"}')
-GEN_DIMS = dict(rwsets='{{}, {"r1"}}', utf8set="{TRUE, FALSE}", stages='{"ok", "body"}')
+GEN_DIMS = dict(rwsets='{{}, {"r1"}}', utf8set="{TRUE, FALSE}", stages='{"ok", "start", "body", "commit"}')
 
 MINE = c01.REPORT_PREDS | {"ReportNamesNonFailedRcpt"}
 
